@@ -192,11 +192,19 @@ func boolRep(r *rand.Rand, b bool) rep {
 // ---- rounds ----
 
 type qcall struct {
-	h      int // index of the DB handle (engine) the call goes to
-	table  string
-	row    bool // QueryRow
-	filter sqlgen.Filter
-	reps   map[string]rep
+	h int // index of the DB handle (engine) the call goes to
+	// tx: the caller's context carries the round's open transaction (handle 0)
+	tx bool
+	// optKind names the shape of the call's non-nil SelectOptions ("" = nil
+	// options); opts builds a fresh options object (sqlgen merges the filter
+	// into it); limit is its Limit
+	optKind string
+	opts    func() *sqlgen.SelectOptions
+	limit   int
+	table   string
+	row     bool // QueryRow
+	filter  sqlgen.Filter
+	reps    map[string]rep
 
 	// unbatched reference
 	refKeys []string
@@ -229,7 +237,14 @@ func (c *qcall) describe() string {
 	if c.filter == nil {
 		f = "nil"
 	}
-	return fmt.Sprintf("db%d.%s(%s, %s)", c.h, op, c.table, f)
+	extra := ""
+	if c.optKind != "" {
+		extra = ", options=" + c.optKind
+	}
+	if c.tx {
+		extra += " [in tx]"
+	}
+	return fmt.Sprintf("db%d.%s(%s, %s%s)", c.h, op, c.table, f, extra)
 }
 
 func show(v interface{}) string {
@@ -265,7 +280,10 @@ func (c *qcall) shape() string {
 	if c.row {
 		op = "R"
 	}
-	return op + ":" + c.table + "{" + strings.Join(cols, ",") + "}"
+	if c.tx {
+		op += "tx"
+	}
+	return op + ":" + c.table + "{" + strings.Join(cols, ",") + "}" + c.optKind
 }
 
 // String domains contain separator-bearing values (commas, spaces, values that
@@ -406,6 +424,49 @@ func genFilter(r *rand.Rand, table string, nItems, nLabels int) (sqlgen.Filter, 
 	return f, reps
 }
 
+// genOptions gives a call a non-nil SelectOptions of a single-field shape.
+// Only nil options may be batched; every shape must return what the call
+// returns on its own.
+func genOptions(r *rand.Rand, c *qcall, allowForUpdate bool) {
+	pk := "id"
+	if c.table == "labels" {
+		pk = "code"
+	}
+	switch r.Intn(7) {
+	case 0, 1:
+		n := 1 + r.Intn(2)
+		c.optKind, c.limit = fmt.Sprintf("Limit(%d)", n), n
+		c.opts = func() *sqlgen.SelectOptions { return &sqlgen.SelectOptions{Limit: n} }
+	case 2:
+		c.optKind = "OrderBy"
+		c.opts = func() *sqlgen.SelectOptions { return &sqlgen.SelectOptions{OrderBy: pk + " DESC"} }
+	case 3:
+		g := int64(r.Intn(3))
+		c.optKind = fmt.Sprintf("Where(grp = %d)", g)
+		c.opts = func() *sqlgen.SelectOptions { return &sqlgen.SelectOptions{Where: "grp = ?", Values: []interface{}{g}} }
+	case 4:
+		if !allowForUpdate {
+			c.optKind = "empty"
+			c.opts = func() *sqlgen.SelectOptions { return &sqlgen.SelectOptions{} }
+			return
+		}
+		c.optKind = "ForUpdate"
+		c.opts = func() *sqlgen.SelectOptions { return &sqlgen.SelectOptions{ForUpdate: true} }
+	case 5:
+		n := r.Intn(2) // an index hint alone, or together with a Limit
+		c.optKind, c.limit = fmt.Sprintf("ForceIndex+Limit(%d)", n), n
+		if n == 0 {
+			c.optKind = "UseIndex"
+			c.opts = func() *sqlgen.SelectOptions { return &sqlgen.SelectOptions{UseIndex: []string{"PRIMARY"}} }
+			return
+		}
+		c.opts = func() *sqlgen.SelectOptions { return &sqlgen.SelectOptions{ForceIndex: []string{"PRIMARY"}, Limit: n} }
+	default:
+		c.optKind = "empty"
+		c.opts = func() *sqlgen.SelectOptions { return &sqlgen.SelectOptions{} }
+	}
+}
+
 func keyOf(row interface{}) string {
 	switch x := row.(type) {
 	case *Item:
@@ -428,16 +489,20 @@ func normRow(row interface{}) interface{} {
 func runQuery(ctx context.Context, db *sqlgen.DB, c *qcall) (keys []string, rows map[string]interface{}, err error) {
 	rows = map[string]interface{}{}
 	var out []interface{}
+	var opts *sqlgen.SelectOptions
+	if c.opts != nil {
+		opts = c.opts()
+	}
 	if c.table == "items" {
 		if c.row {
 			var it *Item
-			err = db.QueryRow(ctx, &it, c.filter, nil)
+			err = db.QueryRow(ctx, &it, c.filter, opts)
 			if err == nil && it != nil {
 				out = append(out, it)
 			}
 		} else {
 			var its []*Item
-			err = db.Query(ctx, &its, c.filter, nil)
+			err = db.Query(ctx, &its, c.filter, opts)
 			for _, it := range its {
 				out = append(out, it)
 			}
@@ -445,13 +510,13 @@ func runQuery(ctx context.Context, db *sqlgen.DB, c *qcall) (keys []string, rows
 	} else {
 		if c.row {
 			var l *Label
-			err = db.QueryRow(ctx, &l, c.filter, nil)
+			err = db.QueryRow(ctx, &l, c.filter, opts)
 			if err == nil && l != nil {
 				out = append(out, l)
 			}
 		} else {
 			var ls []*Label
-			err = db.Query(ctx, &ls, c.filter, nil)
+			err = db.Query(ctx, &ls, c.filter, opts)
 			for _, l := range ls {
 				out = append(out, l)
 			}
@@ -636,6 +701,9 @@ func runRound(run *vlib.Run, i int) {
 		nHandles = 2
 	}
 	collide := r.Intn(4) == 0
+	// tx rounds: handle 0 has an open transaction with uncommitted writes; some
+	// callers of the shared batching context run inside it
+	txRound := r.Intn(5) == 0
 	var handles []*handle
 	for k := 0; k < nHandles; k++ {
 		eng := fakesql.New("", "verifdb")
@@ -690,6 +758,12 @@ func runRound(run *vlib.Run, i int) {
 		} else {
 			c.filter, c.reps = genFilter(r, c.table, len(items), len(labels))
 		}
+		if r.Intn(5) == 0 {
+			genOptions(r, c, !txRound)
+		}
+		if txRound && c.h == 0 && r.Intn(2) == 0 {
+			c.tx = true
+		}
 		calls = append(calls, c)
 	}
 
@@ -712,8 +786,37 @@ func runRound(run *vlib.Run, i int) {
 		run.Count("rounds_with_colliding_tuple_pair", 1)
 	}
 
+	var txctx context.Context
+	var tx *sql.Tx
+	if txRound {
+		var err error
+		if txctx, tx, err = handles[0].db.WithTx(bg); err != nil {
+			run.Broken(fmt.Sprintf("case %d: WithTx: %v", i, err))
+			return
+		}
+		defer tx.Rollback()
+		for _, it := range genItems(r)[:3] {
+			handles[0].db.InsertRow(txctx, it)
+		}
+		handles[0].db.DeleteRow(txctx, &Item{Id: 1})
+		handles[0].db.InsertRow(txctx, &Label{Code: "in-tx", Grp: 1})
+		run.Count("rounds_with_open_transaction", 1)
+	}
+
 	// the table contents as structs (by handle and key), read without batching
 	all := map[string]interface{}{}
+	if txRound {
+		for _, tb := range []string{"items", "labels"} {
+			_, rows, err := runQuery(txctx, handles[0].db, &qcall{table: tb})
+			if err != nil {
+				run.Broken(fmt.Sprintf("case %d: reading %s in the transaction: %v", i, tb, err))
+				return
+			}
+			for k, v := range rows {
+				all[fmt.Sprintf("tx/%s/%s", tb, k)] = v
+			}
+		}
+	}
 	for hi, hd := range handles {
 		for _, tb := range []string{"items", "labels"} {
 			_, rows, err := runQuery(bg, hd.db, &qcall{table: tb})
@@ -729,9 +832,18 @@ func runRound(run *vlib.Run, i int) {
 	// reference: one at a time, no batching. The row set comes from Query;
 	// QueryRow's own unbatched outcome must agree with it (row / ErrNoRows /
 	// another error exactly when Query returns more than one row).
+	refCtx := func(c *qcall) context.Context {
+		if c.tx {
+			return txctx
+		}
+		return bg
+	}
 	for _, c := range calls {
-		q := &qcall{table: c.table, filter: c.filter, h: c.h}
-		c.refKeys, c.refRows, c.refErr = runQuery(bg, handles[c.h].db, q)
+		q := &qcall{table: c.table, filter: c.filter, h: c.h, tx: c.tx}
+		if c.limit == 0 {
+			q.opts, q.optKind = c.opts, c.optKind // same options; a Limit is judged by count (no ORDER BY)
+		}
+		c.refKeys, c.refRows, c.refErr = runQuery(refCtx(c), handles[c.h].db, q)
 		if c.refErr != nil {
 			run.Broken(fmt.Sprintf("case %d: unbatched %s failed: %v", i, q.describe(), c.refErr))
 			return
@@ -747,7 +859,10 @@ func runRound(run *vlib.Run, i int) {
 		default:
 			c.refRowClass = "many"
 		}
-		keys, _, err := runQuery(bg, handles[c.h].db, c)
+		if c.limit > 0 {
+			continue
+		}
+		keys, _, err := runQuery(refCtx(c), handles[c.h].db, c)
 		own := rowClass(keys, err)
 		if own == "error" {
 			own = "many"
@@ -780,6 +895,14 @@ func runRound(run *vlib.Run, i int) {
 		}
 	}
 	bctx := batch.WithBatching(bg)
+	txb := bctx
+	if txRound {
+		var err error
+		if txb, err = handles[0].db.WithExistingTx(bctx, tx); err != nil {
+			run.Broken(fmt.Sprintf("case %d: WithExistingTx: %v", i, err))
+			return
+		}
+	}
 	var wg sync.WaitGroup
 	for _, c := range calls {
 		wg.Add(1)
@@ -790,7 +913,11 @@ func runRound(run *vlib.Run, i int) {
 					c.gotErr = fmt.Errorf("panic: %v", p)
 				}
 			}()
-			c.gotKeys, c.gotRows, c.gotErr = runQuery(bctx, handles[c.h].db, c)
+			ctx := bctx
+			if c.tx {
+				ctx = txb
+			}
+			c.gotKeys, c.gotRows, c.gotErr = runQuery(ctx, handles[c.h].db, c)
 		}(c)
 	}
 	wg.Wait()
@@ -879,6 +1006,9 @@ func runRound(run *vlib.Run, i int) {
 	allOf := func(c *qcall) map[string]interface{} {
 		m := map[string]interface{}{}
 		prefix := fmt.Sprintf("%d/%s/", c.h, c.table)
+		if c.tx {
+			prefix = fmt.Sprintf("tx/%s/", c.table)
+		}
 		for k, v := range all {
 			if strings.HasPrefix(k, prefix) {
 				m[strings.TrimPrefix(k, prefix)] = v
@@ -891,6 +1021,31 @@ func runRound(run *vlib.Run, i int) {
 			// the stream broke and the call says so: fine. What must never
 			// happen is a nil error (or ErrNoRows) with a different row set.
 			run.Count("broken_stream:error_returned", 1)
+			continue
+		}
+		if c.limit > 0 {
+			// no ORDER BY: any `limit` of the matching rows are right
+			want := len(c.refKeys)
+			if want > c.limit {
+				want = c.limit
+			}
+			ok := false
+			switch {
+			case c.row && want == 0:
+				ok = c.gotErr == sql.ErrNoRows
+			case c.row && want == 1:
+				ok = c.gotErr == nil && len(c.gotKeys) == 1 && subset(c.gotKeys, c.refKeys)
+			case c.row:
+				ok = c.gotErr != nil && c.gotErr != sql.ErrNoRows
+			default:
+				ok = c.gotErr == nil && len(c.gotKeys) == want && subset(c.gotKeys, c.refKeys)
+			}
+			if ok {
+				run.Count("agree:options:Limit", 1)
+			} else {
+				run.Count("mismatch:unclassified", 1)
+				run.Violation(i, "", witness(c, fmt.Sprintf("a call with %s returns %d row(s) (err %v) where %d of the %d matching rows are due", c.optKind, len(c.gotKeys), c.gotErr, want, len(c.refKeys))))
+			}
 			continue
 		}
 		if c.row {
@@ -908,7 +1063,7 @@ func runRound(run *vlib.Run, i int) {
 				continue
 			}
 			cls := ""
-			if !strings.HasPrefix(c.gotClass, "ok-with") {
+			if !strings.HasPrefix(c.gotClass, "ok-with") && c.optKind == "" {
 				cls = classify(c, allOf(c), nil, got)
 			}
 			run.Count("mismatch:"+orUnclassified(cls), 1)
@@ -941,7 +1096,10 @@ func runRound(run *vlib.Run, i int) {
 		if got == nil {
 			got = []string{}
 		}
-		cls := classify(c, allOf(c), got, "")
+		cls := ""
+		if c.optKind == "" {
+			cls = classify(c, allOf(c), got, "")
+		}
 		run.Count("mismatch:"+orUnclassified(cls), 1)
 		run.Violation(i, cls, witness(c, "rows returned under batching differ from the rows returned on its own"))
 	}
